@@ -83,7 +83,35 @@ func histProvider(k int) any {
 	return func(a T0) T0 { return T0{Tag: a.Tag + (1 << uint(4+k%40))} }
 }
 
+type tieI interface{ TieName() string }
+type tieA struct{ Tag uint64 }
+type tieB struct{ Tag uint64 }
+
+func (tieA) TieName() string { return "A" }
+func (tieB) TieName() string { return "B" }
+
+// tieProbe: an interface input with two equally good candidates (two outputs of ONE Loose provider, same number of
+// methods): the same description must be wired the same way every time it is bound
+func tieProbe() string {
+	outcomes := map[string]int{}
+	for i := 0; i < 60; i++ {
+		var inv func() string
+		c := nject.Sequence("tie", nject.Loose[tieI](func() (tieA, tieB) { return tieA{1}, tieB{2} }), func(x tieI) string { return x.TieName() })
+		if err := c.Bind(&inv, nil); err != nil {
+			return "bind: " + err.Error()
+		}
+		outcomes[inv()]++
+	}
+	if len(outcomes) != 1 {
+		return fmt.Sprintf("the same description bound 60 times is wired in %d ways: %v", len(outcomes), outcomes)
+	}
+	return ""
+}
+
 func runHistory(seed int64, steps int) []string {
+	if d := tieProbe(); d != "" {
+		return []string{"history diff op=tie-probe " + d}
+	}
 	rng := rand.New(rand.NewSource(seed))
 	var out []string
 	var pool []*histColl
